@@ -177,7 +177,7 @@ def run_replays(pid, mod, state):
         with open(path) as f:
             doc = json.load(f)
         try:
-            run_case(mod, doc["case"], state)
+            run_case(mod, core.revive(doc["case"]), state)
         except Violation as v:
             bad.append((path, v.message))
     return len(files), bad
@@ -312,7 +312,7 @@ def replay_main(pid, path):
     mod = load_module(pid)
     with open(path) as f:
         doc = json.load(f)
-    case = doc["case"] if isinstance(doc, dict) and "case" in doc else doc
+    case = core.revive(doc["case"] if isinstance(doc, dict) and "case" in doc else doc)
     try:
         res = run_case(mod, case)
     except Violation as v:
